@@ -117,7 +117,7 @@ func (r *runner) step(i int, op *Op) {
 }
 
 func (r *runner) beginBurst(ops []Op) {
-	r.burstLoad = 0
+	r.burstLoad.Store(0)
 	// Handshakes may overlap only when no RESULT retry can be in progress:
 	// C06, nobody stalled now or during the last 66 s, no call in the burst.
 	safe := !r.strict
@@ -135,6 +135,14 @@ func (r *runner) beginBurst(ops []Op) {
 		switch o.Op {
 		case "call", "metacall", "kill", "yield", "cancel":
 			safe = false
+		case "hello_goodbye":
+			// A gated handshake keeps realm.close waiting (close lock held)
+			// for up to 1 s of virtual time: nobody may queue on that mutex.
+			safe = false
+		case "join":
+			if o.Wrap {
+				safe = false
+			}
 		}
 	}
 	r.concurrentJoins = safe
@@ -143,7 +151,7 @@ func (r *runner) beginBurst(ops []Op) {
 		if o.Repeat > 1 {
 			n = o.Repeat
 		}
-		r.burstLoad += 3 * n
+		r.burstLoad.Add(int64(3 * n))
 		switch o.Op {
 		case "leave", "drop", "stall", "resume", "unsubscribe", "unregister":
 			r.unstable[o.S] = true
@@ -161,7 +169,7 @@ func (r *runner) beginBurst(ops []Op) {
 
 func (r *runner) endBurst() {
 	r.concurrentJoins = false
-	r.burstLoad = 0
+	r.burstLoad.Store(0)
 	r.unstable = map[int]bool{}
 }
 
@@ -176,8 +184,8 @@ func (r *runner) strictFor(s *sess) bool {
 	if s.metaSub {
 		load = 4
 	}
-	if r.burstLoad > 0 {
-		load = r.burstLoad
+	if bl := int(r.burstLoad.Load()); bl > 0 {
+		load = bl
 	}
 	return s.spec.Q >= load
 }
@@ -514,10 +522,10 @@ func (r *runner) publish(s *sess, ot *opTrace, gate chan struct{}, op *Op) {
 	if n < 1 {
 		n = 1
 	}
-	if n > 1 && r.burstLoad == 0 {
+	if n > 1 && r.burstLoad.Load() == 0 {
 		// n replies / events arrive at one instant
-		r.burstLoad = 2 * n
-		defer func() { r.burstLoad = 0 }()
+		r.burstLoad.Store(int64(2 * n))
+		defer r.burstLoad.Store(0)
 	}
 	for k := 0; k < n; k++ {
 		r.mu.Lock()
